@@ -78,6 +78,8 @@ struct Spec
     size_t          nsusp{0};      // of a basic block that calibration only ever saw executed under that lock
     const uint32_t* shared{nullptr}; // ascending ordinals: yield (forced switch) at the n-th basic block executed
     size_t          nshared{0};      // while the container's lock is held in shared mode only
+    const uint32_t* hold{nullptr};   // ascending ordinals: yield (forced switch) at the n-th basic block executed inside a
+    size_t          nhold{0};        // call while the container's own lock is held exclusively (and no other mutex)
     uint32_t        relock_stall{0}; // a client that takes the container's lock a second time within one call is
                                      // parked for this many decisions first (0: ordinary lock-request point)
     uint32_t        step_budget{20000};
@@ -115,6 +117,8 @@ uint32_t       susp_seen();       // executions of such blocks by a client that 
 uint32_t       susp_fired();      // preemptions taken there
 uint32_t       shared_seen();     // basic blocks executed while holding the container's lock shared
 uint32_t       shared_fired();
+uint32_t       hold_seen();       // basic blocks executed while holding the container's lock exclusively
+uint32_t       hold_fired();
 uint32_t       spin_yields();     // forced yields of a client that was busy-waiting inside one call
 uint32_t       bad_unlocks();     // releases of the container's lock by a client that did not hold it
 uint32_t       relock_fired();    // calls that re-acquired the container's lock and were stalled there
